@@ -17,11 +17,15 @@ fn observe() {
 /// A stream that yields `items` values and then ends; observes the local context at each poll.
 struct Probe {
     items: u8,
+    pending: bool,
 }
 impl Stream for Probe {
     type Item = u8;
     fn poll_next(mut self: Pin<&mut Self>, _cx: &mut Context<'_>) -> Poll<Option<u8>> {
         observe();
+        if self.pending {
+            return Poll::Pending;
+        }
         if self.items > 0 {
             self.items -= 1;
             Poll::Ready(Some(7))
@@ -35,21 +39,30 @@ impl Stream for Probe {
 struct SinkProbe {
     sent: u8,
     close_pending: bool,
+    /// result of poll_ready / start_send / poll_flush: 0 = Ready(Ok) / Ok, 1 = Ready(Err) / Err, 2 = Pending (Err for start_send)
+    ret: u8,
+}
+fn sink_ret(ret: u8) -> Poll<Result<(), ()>> {
+    match ret {
+        0 => Poll::Ready(Ok(())),
+        1 => Poll::Ready(Err(())),
+        _ => Poll::Pending,
+    }
 }
 impl Sink<u8> for SinkProbe {
     type Error = ();
     fn poll_ready(self: Pin<&mut Self>, _cx: &mut Context<'_>) -> Poll<Result<(), ()>> {
         observe();
-        Poll::Ready(Ok(()))
+        sink_ret(self.ret)
     }
     fn start_send(mut self: Pin<&mut Self>, _item: u8) -> Result<(), ()> {
         observe();
         self.sent += 1;
-        Ok(())
+        if self.ret == 0 { Ok(()) } else { Err(()) }
     }
     fn poll_flush(self: Pin<&mut Self>, _cx: &mut Context<'_>) -> Poll<Result<(), ()>> {
         observe();
-        Poll::Ready(Ok(()))
+        sink_ret(self.ret)
     }
     fn poll_close(self: Pin<&mut Self>, _cx: &mut Context<'_>) -> Poll<Result<(), ()>> {
         observe();
@@ -64,18 +77,20 @@ impl Sink<u8> for SinkProbe {
 fn fs_stream_item_poll() {
     api::env_thread0();
     let id: u64 = kani::any();
-    let mut s = StreamExt::in_span(Probe { items: 1 }, api::mk_span(id, kani::any(), kani::any(), kani::any(), false));
+    let pending: bool = kani::any(); // the inner stream is not ready / yields an item: same scoping either way
+    let mut s = StreamExt::in_span(Probe { items: 1, pending }, api::mk_span(id, kani::any(), kani::any(), kani::any(), false));
     let mut cx = Context::from_waker(Waker::noop());
     let sp = unsafe { Pin::new_unchecked(&mut s) };
     let r = sp.poll_next(&mut cx);
-    assert!(r == Poll::Ready(Some(7)));
+    assert!(r == if pending { Poll::Pending } else { Poll::Ready(Some(7)) }, "the inner stream's result was not passed through");
     assert!(unsafe { SEEN_DEPTH } == 1 && unsafe { SEEN_PARENT } == Some(id), "the span was not the local parent during poll_next");
     assert!(api::depth() == 0, "the local context was not restored after poll_next");
     assert!(api::pushed() == 1 && api::pushed_kind(0) == 3 && api::pushed_set_kind(0) == 1, "a poll must hand over exactly its local span set");
     assert!(api::pushed_token_parent(0) == Some(id));
     assert!(s.span.is_some(), "the span finished before the stream ended");
     std::mem::forget(s);
-    kani::cover!(true);
+    kani::cover!(pending);
+    kani::cover!(!pending);
 }
 
 // C14: end of stream on a ROOT span: the span finishes, and that poll's local spans are handed over
@@ -86,7 +101,7 @@ fn fs_stream_end_root() {
     api::env_thread0();
     let id: u64 = kani::any();
     let cid: usize = kani::any();
-    let mut s = StreamExt::in_span(Probe { items: 0 }, api::mk_span(id, kani::any(), kani::any(), cid, true));
+    let mut s = StreamExt::in_span(Probe { items: 0, pending: false }, api::mk_span(id, kani::any(), kani::any(), cid, true));
     let mut cx = Context::from_waker(Waker::noop());
     let sp = unsafe { Pin::new_unchecked(&mut s) };
     let r = sp.poll_next(&mut cx);
@@ -108,15 +123,17 @@ fn fs_stream_end_root() {
 fn fs_sink_send_calls() {
     api::env_thread0();
     let id: u64 = kani::any();
-    let mut s = SinkExt::in_span(SinkProbe { sent: 0, close_pending: false }, api::mk_span(id, kani::any(), kani::any(), kani::any(), false));
+    let ret: u8 = kani::any(); // what the inner sink answers: Ready(Ok) / Ready(Err) / Pending — the span stays in every case
+    kani::assume(ret < 3);
+    let mut s = SinkExt::in_span(SinkProbe { sent: 0, close_pending: false, ret }, api::mk_span(id, kani::any(), kani::any(), kani::any(), false));
     let mut cx = Context::from_waker(Waker::noop());
     let which: u8 = kani::any();
     kani::assume(which < 3);
     let sp = unsafe { Pin::new_unchecked(&mut s) };
     match which {
-        0 => assert!(Sink::<u8>::poll_ready(sp, &mut cx) == Poll::Ready(Ok(()))),
-        1 => assert!(Sink::<u8>::start_send(sp, 3) == Ok(())),
-        _ => assert!(Sink::<u8>::poll_flush(sp, &mut cx) == Poll::Ready(Ok(()))),
+        0 => assert!(Sink::<u8>::poll_ready(sp, &mut cx) == sink_ret(ret), "poll_ready's result was not passed through"),
+        1 => assert!(Sink::<u8>::start_send(sp, 3) == if ret == 0 { Ok(()) } else { Err(()) }, "start_send's result was not passed through"),
+        _ => assert!(Sink::<u8>::poll_flush(sp, &mut cx) == sink_ret(ret), "poll_flush's result was not passed through"),
     }
     assert!(unsafe { SEEN_DEPTH } == 1 && unsafe { SEEN_PARENT } == Some(id), "the span was not the local parent during the sink call");
     assert!(api::depth() == 0, "the local context was not restored after the sink call");
@@ -124,6 +141,8 @@ fn fs_sink_send_calls() {
     assert!(s.span.is_some(), "the span finished before the sink was closed");
     std::mem::forget(s);
     kani::cover!(which == 1);
+    kani::cover!(which == 0 && ret == 2);
+    kani::cover!(which == 2 && ret == 1);
 }
 
 // C14: poll_close: Pending keeps the span; Ready finishes it, local spans before the commit.
@@ -133,7 +152,7 @@ fn fs_sink_close_root() {
     api::env_thread0();
     let id: u64 = kani::any();
     let pending: bool = kani::any();
-    let mut s = SinkExt::in_span(SinkProbe { sent: 0, close_pending: pending }, api::mk_span(id, kani::any(), kani::any(), kani::any(), true));
+    let mut s = SinkExt::in_span(SinkProbe { sent: 0, close_pending: pending, ret: 0 }, api::mk_span(id, kani::any(), kani::any(), kani::any(), true));
     let mut cx = Context::from_waker(Waker::noop());
     let sp = unsafe { Pin::new_unchecked(&mut s) };
     let r = Sink::<u8>::poll_close(sp, &mut cx);
@@ -159,7 +178,7 @@ fn fs_sink_close_root() {
 #[kani::unwind(3)]
 fn fs_noop() {
     api::env_thread0();
-    let mut s = StreamExt::in_span(Probe { items: 0 }, fastrace::Span::noop());
+    let mut s = StreamExt::in_span(Probe { items: 0, pending: false }, fastrace::Span::noop());
     let mut cx = Context::from_waker(Waker::noop());
     let sp = unsafe { Pin::new_unchecked(&mut s) };
     assert!(sp.poll_next(&mut cx) == Poll::Ready(None));
